@@ -96,8 +96,10 @@ class QGauss(object):
             raise ValueError(
                 "When integrating a function, send the " "x range [xmin,xmax] "
             )
-        x1 = xvals[0]
-        x2 = xvals[1]
+        # python floats: an integer or float32 range must not be processed in
+        # its own dtype (unsigned wrap-around for x2 < x1, overflow of x2 + x1)
+        x1 = float(xvals[0])
+        x2 = float(xvals[1])
 
         f1 = (x2 - x1) / 2.0
         f2 = (x2 + x1) / 2.0
@@ -117,6 +119,12 @@ class QGauss(object):
         self.setup(npts=npts)
         if self.npts is None:
             raise ValueError("Set npts on construction or in this call")
+
+        # work in float64: integer or float32 tables must not be processed in
+        # their own dtype (x2 + x1 and the differences taken by interplin
+        # overflow / wrap around for small integer types)
+        xvals = numpy.asarray(xvals, dtype="f8")
+        yvals = numpy.asarray(yvals, dtype="f8")
 
         x1 = xvals.min()
         x2 = xvals.max()
@@ -232,10 +240,10 @@ class QGauss2(object):
         if len(xrng) != 2 or len(yrng) != 2:
             raise ValueError("xrng and yrng should be 2-element")
 
-        x1 = xrng[0]
-        x2 = xrng[1]
-        y1 = yrng[0]
-        y2 = yrng[1]
+        x1 = float(xrng[0])
+        x2 = float(xrng[1])
+        y1 = float(yrng[0])
+        y2 = float(yrng[1])
 
         xf1 = (x2 - x1) / 2.0
         xf2 = (x2 + x1) / 2.0
